@@ -193,6 +193,31 @@ def _delegation(v: ast.AST, name: str, s: str, o: str) -> str | None:
     return None
 
 
+def _helper_resolver(world, table, cls, fn):
+    """Resolves `self._check(other)` / `_check(self, other)` to the in-package function and its argument expressions."""
+    s = fn.args.args[0].arg
+
+    def resolve(call: ast.Call):
+        f = call.func
+        if isinstance(f, ast.Attribute) and isinstance(f.value, ast.Name) and f.value.id == s:
+            r = table.resolve(cls, f.attr)
+            if r is not None and isinstance(r.node, ast.FunctionDef) and not any(kw.arg is None for kw in call.keywords):
+                params = [a.arg for a in r.node.args.args]
+                args = [f.value] + list(call.args)
+                kws = {kw.arg: kw.value for kw in call.keywords}
+                for p in params[len(args):]:
+                    if p in kws:
+                        args.append(kws[p])
+                return r.node, args
+        q = world.qualify(module_of(call), f)
+        target = world.lookup(q) if q else None
+        if isinstance(target, ast.FunctionDef) and not call.keywords:
+            return target, list(call.args)
+        return None
+
+    return resolve
+
+
 def _check_binary(ck, world, table, cls, name, fn, comp, add, homothety, identity, lazy_inv) -> int:
     if len(fn.args.args) < 2:
         ck.incomplete('S1', fn, 'binary dunder without an `other` parameter')
@@ -213,7 +238,7 @@ def _check_binary(ck, world, table, cls, name, fn, comp, add, homothety, identit
         env = path_env(path)
         rt = term(v, env)
         label = show(rt)[:70]
-        fs = {_norm(f, aliases) for f in facts(path)}
+        fs = {_norm(f, aliases) for f in facts(path, None, _helper_resolver(world, table, cls, fn))}
         eqs = {f[1] for f in fs if f[0] == 'eq'}
         deleg = _delegation(v, name, s, o)
         # local-variable delegation, e.g. ``result = self + (-other); return result``
